@@ -268,8 +268,9 @@ def wfields(w, oc, ref=True, orig=False, off=0.0):
 def ex_repeat(c):
     off = xoff(c)
     x, y = xarr(c["x"], c.get("container", "array"), off), arr(c["y"], c.get("container", "array"))
-    oc, o = guarded(lambda: proc.repeat(x, y, c["r"]))
-    woc, w, _ = wrun(x, y, lambda w: w.repeat(c["r"]))
+    rr = np.int64(c["r"]) if c.get("r_kind") == "np" else c["r"]
+    oc, o = guarded(lambda: proc.repeat(x, y, rr))
+    woc, w, _ = wrun(x, y, lambda w: w.repeat(rr))
     e = dict(c)
     e.update(outcome=oc, outx=xvec(o[0], off) if oc == "ok" else [], outy=vec(o[1]) if oc == "ok" else [], w_outcome=woc)
     e.update(wfields(w, woc, off=off))
@@ -512,7 +513,8 @@ def rfa_run(c, x, y):
         return xs, ys, [], []
     cls = getattr(rfa_mod, RFA_CLASSES[c["strategy"]])
     kw = rfa_kwargs(c)
-    obj = cls(x, y, c["n"], **kw)
+    nn = {"np": np.int64(c["n"]), "np32": np.int32(c["n"]), "float": float(c["n"])}.get(c.get("n_kind"), c["n"])     # how the factor is typed
+    obj = cls(x, y, nn, **kw)
     seen = set()
     if "exp" in kw:      # observe the exponent reaching the shape functions (module-level names rebound from outside)
         saved = (rfa_mod.lin_exp_xy_fit, rfa_mod.exp_lin_fit)
